@@ -1470,3 +1470,47 @@ rule("C02", "D2.15", "T-WITNESS", floor=8)(_fixedstring_bounded)
 rule("C06", "D6.14", "T-WITNESS", floor=8)(_fixedstring_rule)
 rule("C07", "D7.11", "T-WITNESS", floor=8)(_fixedstring_rule)
 rule("C08", "D8.11", "T-WITNESS", floor=8)(_fixedstring_rule)
+
+
+@rule("C05", "D5.17", "T-WITNESS", floor=3)
+def d5_17(ctx):
+    """_read_template folded on witness replies (generic_message is a marker): each request is Read Tag on the template object
+    instance with the byte offset received so far (DINT) and the bytes still missing (UINT: definition size x 4 - 21 - offset);
+    the loop continues while the reply status is 0x06, stops at 0, and anything else raises; the pieces are concatenated in
+    order."""
+    import struct as _st
+
+    lx = _lx(ctx)
+    fn = lx.methods["_read_template"]
+    INS = ctx.folder.module_value(lx.module.name, "INSUFFICIENT_PACKETS")
+    ev = lambda s_: ctx.folder.eval(ast.parse(s_, mode="eval").body, lx.module)  # noqa: E731
+    total = 30 * 4 - 21
+    for label, chunks, want in (("three pieces", [(INS, b"a" * 40), (INS, b"b" * 39), (0, b"c" * 20)], ("return", b"a" * 40 + b"b" * 39 + b"c" * 20)), ("one piece", [(0, b"z" * 99)], ("return", b"z" * 99)),
+                                ("second piece refused", [(INS, b"a" * 40), (4, b"")], ("raise", "ResponseError"))):
+        seen = []
+
+        def gm(a, k, seen=seen, chunks=chunks):
+            seen.append(dict(k))
+            if len(seen) > len(chunks) + 2:
+                raise _Raise("RuntimeError")  # the loop keeps asking after the scripted replies: stop it (reported by the request count)
+            st, data = chunks[min(len(seen), len(chunks)) - 1]
+            return Obj(kind="tag", value=_resp(st in (0, INS), service_status=st, data=data), error=None, _truth=True)
+
+        kind, res = run_function(ctx, lx.module, fn, {"self": _me(), fn.args.args[1].arg: 0x123, fn.args.args[2].arg: 30}, call_hook=self_call("generic_message", gm), deep=False)
+        key = ckey(lx.key + "._read_template", f"witness:{label}")
+        if kind == "unknown":
+            ctx.undecided(key, fn, f"_read_template not foldable on {label}: {res}")
+            continue
+        diffs = []
+        if (kind, bytes(res) if isinstance(res, (bytes, bytearray)) else res) != want:
+            diffs.append(f"gives {kind} {res!r} (expected {want[0]} {want[1]!r})")
+        pos = 0
+        for i, k in enumerate(seen):
+            want_data = _st.pack("<i", pos) + _st.pack("<H", total - pos)
+            if k.get("request_data") != want_data or k.get("service") != ev("Services.read_tag") or k.get("class_code") != ev("ClassCode.template_object") or k.get("instance") != 0x123 or k.get("return_response_packet") is not True:
+                diffs.append(f"request {i} asks {k.get('request_data')!r} of instance {k.get('instance')!r} (expected offset {pos}, {total - pos} bytes left: {want_data!r})")
+                break
+            pos += len(chunks[i][1])
+        if len(seen) != len(chunks):
+            diffs.append(f"{len(seen)} request(s) sent (expected {len(chunks)})")
+        ctx.check(not diffs, key, fn, f"{label}: {len(chunks)} request(s), offsets advance by the bytes received", f"template read ({label}): {diffs[:2]}", witness=label)
